@@ -5,8 +5,8 @@ package main
 
 import (
 	"fmt"
-	"strings"
 	"math/big"
+	"strings"
 	"time"
 
 	"github.com/tuneinsight/lattigo/v6/ring"
@@ -908,10 +908,10 @@ func ringScenario(N int, moduli []uint64, cls string) engine.Scenario {
 			}
 			// vector wrappers: one representative per kernel family through the Ring API at this level
 			type w3 struct {
-				name string
-				acc  bool
-				call func(a, b, o ring.Poly)
-				ref  func(q, ri, a, b, acc uint64) uint64
+				name   string
+				acc    bool
+				call   func(a, b, o ring.Poly)
+				ref    func(q, ri, a, b, acc uint64) uint64
 				strict bool
 			}
 			for _, w := range []w3{
@@ -946,9 +946,9 @@ func ringScenario(N int, moduli []uint64, cls string) engine.Scenario {
 				}
 			}
 			type w2 struct {
-				name string
-				call func(a, o ring.Poly)
-				ref  func(q, ri, a uint64) uint64
+				name   string
+				call   func(a, o ring.Poly)
+				ref    func(q, ri, a uint64) uint64
 				strict bool
 			}
 			for _, w := range []w2{
@@ -1407,6 +1407,185 @@ func foldScenario(N int, moduli []uint64, cls string) engine.Scenario {
 	}}
 }
 
+// kernelTinyFull: for a tiny prime, EVERY operand pair (a,b) in [0,q)² (and every accumulator value from a small
+// alphabet) in every lane position of one 8-lane block: the whole operand space of the kernel over that field.
+func kernelTinyFull(k kern, N int, q uint64) engine.Scenario {
+	name := fmt.Sprintf("kernel-full/%s/N=%d/q=%d", k.name, N, q)
+	return engine.Scenario{Name: name, Bound: -1, Fn: func(c *engine.Chooser) {
+		s, err := ring.NewSubRing(N, q)
+		if err != nil {
+			c.Fail("C01/NewSubRing", "%v", err)
+			return
+		}
+		rinv := ref.InvMod(ref.Pow2Mod(64, q), q)
+		a := make([]uint64, N)
+		b := make([]uint64, N)
+		o := make([]uint64, N)
+		accs := []uint64{0}
+		if k.acc {
+			accs = []uint64{0, 1, q / 2, q - 1}
+		}
+		s0s, s1s := []uint64{0}, []uint64{0}
+		if k.scalars >= 1 {
+			s0s = []uint64{0, 1, q / 2, q - 1}
+		}
+		if k.scalars >= 2 {
+			s1s = []uint64{1, q - 1}
+		}
+		maxv, hasRange := k.max(q)
+		evals := 0
+		for _, s0 := range s0s {
+			for _, s1 := range s1s {
+				for _, ac := range accs {
+					// lane j of the block gets operand pair (x, (x*7+j) mod q): all q values of a in every lane,
+					// and over the q iterations of the shift every (a,b) pair in every lane
+					for shift := uint64(0); shift < q; shift++ {
+						for x0 := uint64(0); x0 < q; x0 += uint64(N) {
+							for j := 0; j < N; j++ {
+								a[j] = (x0 + uint64(j)) % q
+								b[j] = (a[j] + shift) % q
+								o[j] = ac
+							}
+							if !k.in2 && shift > 0 {
+								continue
+							}
+							k.call(s, a, b, o, s0, s1)
+							evals++
+							for j := 0; j < N; j++ {
+								w := k.ref(q, rinv, a[j], b[j], ac, s0, s1)
+								if o[j]%q != w {
+									c.Fail("C01/kernel/"+k.name+"/value", "%s N=%d q=%d lane=%d a=%d b=%d acc=%d s0=%d s1=%d: got %d want %d (tiny field exhaustion)", k.name, N, q, j, a[j], b[j], ac, s0, s1, o[j], w)
+									return
+								}
+								if hasRange && o[j] > maxv {
+									c.Fail("C01/kernel/"+k.name+"/range", "%s N=%d q=%d lane=%d a=%d b=%d acc=%d: got %d > documented max %d (tiny field exhaustion)", k.name, N, q, j, a[j], b[j], ac, o[j], maxv)
+									return
+								}
+							}
+						}
+					}
+				}
+			}
+		}
+		c.Count(evals * N)
+		c.Cover("kernel-full", k.name)
+		c.Outcome(name, evals)
+	}}
+}
+
+// kernelLanePairs: two lanes of the same 8-lane block carry boundary values at once (operand a in lane l1, operand
+// b in lane l2): an operand read from the neighbouring lane shows even when single-lane probes agree by accident.
+func kernelLanePairs(k kern, N int, q uint64, cls string) engine.Scenario {
+	name := fmt.Sprintf("kernel-pairs/%s/N=%d/%s/q=%d", k.name, N, cls, q)
+	return engine.Scenario{Name: name, Bound: -1, Fn: func(c *engine.Chooser) {
+		s, err := ring.NewSubRing(N, q)
+		if err != nil {
+			c.Fail("C01/NewSubRing", "%v", err)
+			return
+		}
+		rinv := ref.InvMod(ref.Pow2Mod(64, q), q)
+		vals := []uint64{0, 1, q - 1, q / 2}
+		a := make([]uint64, N)
+		b := make([]uint64, N)
+		o := make([]uint64, N)
+		bg := func(j int, salt uint64) uint64 { return (uint64(j+1)*0x9E3779B97F4A7C15 + salt) % q }
+		evals := 0
+		for blk := 0; blk < N; blk += 8 {
+			for l1 := blk; l1 < blk+8; l1++ {
+				for l2 := blk; l2 < blk+8; l2++ {
+					for _, va := range vals {
+						for _, vb := range vals {
+							for j := 0; j < N; j++ {
+								a[j], b[j], o[j] = bg(j, 1), bg(j, 2), bg(j, 3)
+							}
+							a[l1], b[l2] = va, vb
+							acc := append([]uint64{}, o...)
+							k.call(s, a, b, o, vals[1], vals[2])
+							evals++
+							for j := 0; j < N; j++ {
+								if w := k.ref(q, rinv, a[j], b[j], acc[j], vals[1], vals[2]); o[j]%q != w {
+									c.Fail("C01/kernel/"+k.name+"/value", "%s N=%d q=%d: a[%d]=%d b[%d]=%d: out[%d]=%d want %d (lane pairs)", k.name, N, q, l1, va, l2, vb, j, o[j], w)
+									return
+								}
+							}
+						}
+					}
+				}
+			}
+		}
+		c.Count(evals)
+		c.Cover("kernel-pairs", k.name)
+		c.Outcome(name, evals)
+	}}
+}
+
+// nttTwoTermFull: every polynomial with at most two non-zero coefficients over the WHOLE field, for the two tiny
+// rings (non-unrolled path N=8,q=17; unrolled path N=16,q=97), against linearity over the monomial transforms
+// (which the convolution oracle of nttScenario pins) and the round trip.
+func nttTwoTermFull(N int, q uint64, rt ring.Type) engine.Scenario {
+	name := fmt.Sprintf("ntt-two-term-full/%v/N=%d/q=%d", rt, N, q)
+	return engine.Scenario{Name: name, Bound: -1, Fn: func(c *engine.Chooser) {
+		r, err := ring.NewRingFromType(N, []uint64{q}, rt)
+		if err != nil {
+			c.Fail("C01/NewRing", "%v", err)
+			return
+		}
+		s := r.SubRings[0]
+		mono := make([][]uint64, N)
+		p := make([]uint64, N)
+		for i := 0; i < N; i++ {
+			for j := range p {
+				p[j] = 0
+			}
+			p[i] = 1
+			mono[i] = make([]uint64, N)
+			s.NTT(p, mono[i])
+		}
+		out := make([]uint64, N)
+		back := make([]uint64, N)
+		evals := 0
+		sig := fmt.Sprintf("C01/ntt/%v/", rt)
+		for i := 0; i < N; i++ {
+			for j := i; j < N; j++ {
+				for c1 := uint64(0); c1 < q; c1++ {
+					for c2 := uint64(1); c2 < q; c2++ {
+						if i == j && c1 != 0 {
+							continue
+						}
+						for k := range p {
+							p[k] = 0
+						}
+						p[i] = c1
+						p[j] = ref.AddMod(p[j], c2, q)
+						s.NTT(p, out)
+						evals++
+						for k := 0; k < N; k++ {
+							w := ref.AddMod(mm(c1, mono[i][k], q), mm(c2, mono[j][k], q), q)
+							if i == j {
+								w = mm(c2, mono[j][k], q)
+							}
+							if out[k] != w {
+								c.Fail(sig+"two-term/linearity", "N=%d q=%d: NTT(%d·X^%d + %d·X^%d)[%d] = %d, want %d", N, q, c1, i, c2, j, k, out[k], w)
+								return
+							}
+						}
+						s.INTT(out, back)
+						for k := 0; k < N; k++ {
+							if back[k] != p[k] {
+								c.Fail(sig+"two-term/INTT(NTT)", "N=%d q=%d: INTT(NTT(%d·X^%d + %d·X^%d))[%d] = %d, want %d", N, q, c1, i, c2, j, k, back[k], p[k])
+								return
+							}
+						}
+					}
+				}
+			}
+		}
+		c.Count(evals)
+		c.Cover("ntt-two-term-full", fmt.Sprintf("%v/N=%d", rt, N))
+		c.Outcome(name, evals)
+	}}
+}
+
 // ---------------------------------------------------------------------------------------------
 
 func scenarios(tier string) []engine.Scenario {
@@ -1427,22 +1606,36 @@ func scenarios(tier string) []engine.Scenario {
 		}
 	}
 	ks := kernels()
+	// whole-field operand exhaustion per kernel, lane pairs, two-term NTT exhaustion
+	for _, k := range ks {
+		scs = append(scs, kernelTinyFull(k, 16, 97))
+		scs = append(scs, kernelTinyFull(k, 8, 17))
+		if tier == "thorough" {
+			scs = append(scs, kernelTinyFull(k, 16, 193), kernelTinyFull(k, 32, 257))
+		}
+		if k.in2 {
+			for _, N := range []int{8, 16} {
+				scs = append(scs, kernelLanePairs(k, N, ref.PrimesNear(1<<61, uint64(4*N), 1, true)[0], "big"))
+				scs = append(scs, kernelLanePairs(k, N, ref.SmallestPrimes(uint64(4*N), 1)[0], "tiny"))
+			}
+		}
+	}
+	for _, rt := range []ring.Type{ring.Standard, ring.ConjugateInvariant} {
+		scs = append(scs, nttTwoTermFull(8, 97, rt)) // 97 = 1 mod 32: valid for both ring types at N=8
+		scs = append(scs, nttTwoTermFull(16, 193, rt))
+		if tier == "thorough" {
+			scs = append(scs, nttTwoTermFull(16, 257, rt), nttTwoTermFull(32, 257, rt))
+		}
+	}
 	for _, N := range degrees(tier) {
 		for _, cl := range classes(tier) {
 			qs := cl.q(uint64(4 * N)) // ≡1 mod 4N: valid for both ring types
-			if tier != "thorough" && N >= 32 {
-				if cl.name == "tiny" || cl.name == "big" {
-					// quick, larger degrees: first and last of the class
-					qs = []uint64{qs[0], qs[len(qs)-1]}
-				} else {
-					qs = qs[:1]
-				}
-			}
+			// (quick and thorough use every prime of every class at every degree; thorough adds N=128 and the large-N NTTs)
 			for _, q := range qs {
-				if N <= 64 || (N == 128 && cl.name == "big") {
+				if N <= 64 || N == 128 {
 					for _, k := range ks {
-						if tier != "thorough" && N >= 32 && k.scalars == 2 {
-							continue // quadratic scalar product: N=8,16 only in quick
+						if tier != "thorough" && N >= 64 && k.scalars == 2 && cl.name != "big" && cl.name != "tiny" {
+							continue // quadratic scalar product at N=64: tiny and big classes only in quick
 						}
 						scs = append(scs, kernelScenario(k, N, q, cl.name))
 					}
@@ -1471,7 +1664,7 @@ func scenarios(tier string) []engine.Scenario {
 	}
 	if tier == "thorough" {
 		// large-N NTT on dense extremes
-		for _, N := range []int{256, 512, 1024} {
+		for _, N := range []int{256, 512, 1024, 2048, 4096} {
 			for _, q := range []uint64{ref.SmallestPrimes(uint64(4*N), 1)[0], ref.PrimesNear(1<<61, uint64(4*N), 1, true)[0]} {
 				scs = append(scs, nttScenario(N, q, "largeN", ring.Standard, "quick"))
 				scs = append(scs, nttScenario(N, q, "largeN", ring.ConjugateInvariant, "quick"))
